@@ -227,6 +227,27 @@ func (pl *Pool) Table(r *ref.R, n int) []string {
 			}
 		case len(out) > 0 && r.Chance(1, 2):
 			add(pl.Derive(r, ref.Pick(r, out)))
+		case r.Chance(1, 14):
+			// a wide fan below a parameter: ten or more children under one parameter node, then a competitor of another
+			// kind at the same position that shares one of the children (it is registered after them)
+			prefix := ref.Pick(r, []string{"/u/", "/", "w", "/a/b/"})
+			ts := append([]TokSpec(nil), Tokens...)
+			ref.Shuffle(r, ts)
+			a, b := ts[0], ts[1]
+			tail := ref.Pick(r, []string{"/", "-", "/k/"})
+			if a.Class != nil && a.Class(tail[0]) || b.Class != nil && b.Class(tail[0]) {
+				tail = "/"
+			}
+			kids := []string{"avatar", "blog", "cfg", "docs", "edit", "feed", "gist", "home", "inbox", "jobs", "keys", "logs", "mail", "news"}
+			ref.Shuffle(r, kids)
+			k := r.Range(10, 13)
+			for _, kid := range kids[:k] {
+				add(prefix + a.Text + tail + kid)
+			}
+			add(prefix + b.Text + tail + ref.Pick(r, kids[:k]))
+			if r.Bool() {
+				add(prefix + b.Text + tail + kids[k])
+			}
 		case r.Chance(1, 5):
 			// a fan: several literal siblings under one parent plus parameter siblings
 			prefix := ""
@@ -396,6 +417,28 @@ func SimpleFor(ics ICSet) *Pool {
 // Malform turns a well-formed pattern into one with exactly one documented
 // syntax error; the class is known by construction.
 func Malform(r *ref.R, p string) (string, string) {
+	if r.Chance(1, 8) {
+		// scale: a long pattern (11-18 parameters) whose only defect is a name repeated among the late ones
+		n := r.Range(11, 18)
+		i := r.Range(10, n-1)
+		j := r.Range(0, i-1)
+		if r.Bool() {
+			j = r.Range(8, i-1) // both occurrences far from the start
+		}
+		var b strings.Builder
+		b.WriteString(p)
+		for k := 0; k < n; k++ {
+			name := "p" + string(rune('a'+k))
+			if k == i {
+				name = "p" + string(rune('a'+j))
+			}
+			b.WriteString(ref.Pick(r, []string{"/", "/s/", "-", "."}))
+			b.WriteString(ref.Pick(r, []string{"{" + name + "}", "{-" + name + "}", "{" + name + ":\\d+}"}))
+		}
+		if _, cls := ref.Parse(p, nil); cls == ref.SynOK && !strings.Contains(p, "{p") && (p == "" || p[len(p)-1] != '}') {
+			return b.String(), "duplicate-name"
+		}
+	}
 	pp, cls := ref.Parse(p, nil)
 	var toks []int
 	if cls == ref.SynOK {
